@@ -208,6 +208,7 @@ class World:
             raise HarnessError(backend)
         ns.base.compile_filters.cache_clear()
         ns.storage_pkg._STORAGE = self.storage
+        self.opts = dict(ns.Config.storage)  # as configured (the storage object pops entries from its own copy)
         self.loop.run_coro(self.storage.setup())
         if backend == "kv":
             st = self.storage
@@ -279,6 +280,76 @@ class World:
         c.task = self.loop.create_task(handler())
         return c
 
+    def cli_load(self, lines, validators_key=True, horizon=1e9):
+        """Run the real `nostr-relay load` command body (cli.load, unwrapped from click/asyncio.run) over a file holding `lines`.
+        As in a fresh `nostr-relay load` process the loader builds its own storage object from Config.storage through get_storage();
+        the World's first storage object is closed before.  validators_key=False: the storage section has no `validators` entry (the
+        shipped default list applies).  Returns what the command printed."""
+        import io
+        import importlib
+        import contextlib
+
+        ns = self.ns
+        import sys
+
+        if "nostr_relay.cli" not in sys.modules:
+            # cli.py installs uvloop's event loop policy at import when uvloop is present: keep the harness process on the stock policy
+            had = sys.modules.get("uvloop", Ellipsis)
+            sys.modules["uvloop"] = None
+            try:
+                importlib.import_module("nostr_relay.cli")
+            finally:
+                if had is Ellipsis:
+                    sys.modules.pop("uvloop", None)
+                else:
+                    sys.modules["uvloop"] = had
+        cli = sys.modules["nostr_relay.cli"]
+        fn = cli.load.callback
+        while hasattr(fn, "__wrapped__"):
+            fn = fn.__wrapped__
+        old = self.storage
+        if self.backend == "sql":
+            self.call(old.close())
+            sa.event.remove(sa.engine.base.Engine, "connect", old._set_sqlite_pragma)
+        else:
+            kvdoubles.stop_writer(old.writer_thread)
+        opts = dict(self.opts)
+        if not validators_key:
+            opts.pop("validators", None)
+        ns.Config.storage = opts
+        ns.storage_pkg._STORAGE = None
+        world = self
+        cls = orig = None
+        if self.backend == "kv":
+            cls = ns.kv.LMDBStorage
+            orig = cls.setup
+
+            async def setup(st):
+                await orig(st)
+                st.writer_queue.on_put = world._on_writer_put
+                world.storage = st
+                world.env = st.db
+
+            cls.setup = setup
+        path = os.path.join("/dev/shm" if os.path.isdir("/dev/shm") else sqlshim.scratch_dir(), "nrmc_load_%d_%d.jsonl" % (os.getpid(), self.n))
+        with open(path, "w") as f:
+            f.write("".join(line + "\n" for line in lines))
+        out = io.StringIO()
+        try:
+            with contextlib.redirect_stdout(out):
+                self.call(fn(None, path), horizon)
+        finally:
+            try:
+                os.unlink(path)
+            except OSError:
+                pass
+            if cls is not None:
+                cls.setup = orig
+            st = ns.storage_pkg._STORAGE
+            if st is not None:
+                self.storage = st
+        return out.getvalue()
+
     def run(self, horizon=50.0):
         self.loop.drain(horizon=horizon)
 
@@ -332,7 +403,10 @@ class World:
                 except BaseException:
                     pass
                 self.sql.kill()
-                sa.event.remove(sa.engine.base.Engine, "connect", self.storage._set_sqlite_pragma)
+                try:
+                    sa.event.remove(sa.engine.base.Engine, "connect", self.storage._set_sqlite_pragma)
+                except sa.exc.InvalidRequestError:
+                    pass  # already removed by cli_load and the loader built no storage of its own
                 if remove:
                     for suf in ("", "-wal", "-shm", "-journal"):
                         try:
